@@ -24,6 +24,7 @@ mod feed;
 mod c14;
 mod c15;
 mod c16;
+mod c17;
 mod c18;
 mod c19;
 mod c20;
@@ -94,6 +95,7 @@ fn main() {
         "C14" => c14::main(&args),
         "C15" => c15::main(&args),
         "C16" => c16::main(&args),
+        "C17" => c17::main(&args),
         "C18" => c18::main(&args),
         "C19" => c19::main(&args),
         "C20" => c20::main(&args),
